@@ -2,7 +2,7 @@
 from scen import Stmt, Variant, scenario, standard_ops, ninja_op, sources_of
 
 
-def _mk(name, variants, tags=(), files=None, depth=2, js=(1, 3), fresh_depth=1, builddir="", **kw):
+def _mk(name, variants, tags=(), files=None, depth=2, js=(1, 3), fresh_depth=1, builddir="", dirs=(), **kw):
     """Two scenarios per template: exploration from the fresh tree and from a fully built tree."""
     files = dict(files or {})
     out = []
@@ -10,9 +10,9 @@ def _mk(name, variants, tags=(), files=None, depth=2, js=(1, 3), fresh_depth=1, 
     ops = standard_ops(variants, files, js=js, **kw)
     build_idx = next(i for i, o in enumerate(ops) if o["op"] == "ninja")
     out.append(scenario(name + "/fresh", "template", variants, files=files, ops=ops, init=[], depth=fresh_depth,
-                        tags=list(tags) + ["fresh"], builddir=builddir))
+                        tags=list(tags) + ["fresh"], builddir=builddir, dirs=dirs))
     out.append(scenario(name + "/built", "template", variants, files=files, ops=ops, init=[build_idx], depth=depth,
-                        tags=list(tags) + ["built"], builddir=builddir))
+                        tags=list(tags) + ["built"], builddir=builddir, dirs=dirs))
     return out
 
 
@@ -274,5 +274,12 @@ def templates(tier="quick"):
     v = Variant("v0", [Stmt("a", ex=["s"]), scoped(Stmt("b", ex=["a"], hidden=["h"], depfile=True), "sub1.ninja", "r0"),
                        scoped(Stmt("c", ex=["b"], restat=True), "sub2.ninja", "r0"), Stmt("top", ex=["c", "a"])])
     T += _mk("subninja_scopes", [v], tags=["subninja", "depfile", "restat"], depth=d, touch=True, js=(1, 2), max_fault_stmts=2)
+
+    # T30 a phony alias whose name also exists on disk, as a directory (`build docs: phony docs/index.html`) or as a file
+    for what in ("dir", "file"):
+        v = Variant("v0", [Stmt("gen.h", ex=["h.in"]), Stmt("hdrs", ex=["hdr.h", "gen.h"], phony=True),
+                           Stmt("out", ex=["src"], im=["hdrs"]), Stmt("top", ex=["out"])])
+        T += _mk("phony_alias_exists_as_" + what, [v], tags=["phony"], depth=d, touch=True, js=(1, 2), max_fault_stmts=1,
+                 dirs=["hdrs"] if what == "dir" else (), files={} if what == "dir" else {"hdrs": "a file named like the alias\n"})
 
     return T
